@@ -25,7 +25,9 @@ RULE = ("long histories (quick 4 x ~650 steps, thorough up to 4000 steps: hold q
         "requests of every kind, also through the Scalar/Array constructors), CreateEmpty, CreateDerived, "
         "MakeCopy(map), Quantity/Scalar/Array(+numpy, +list) arithmetic between earlier results and with plain "
         "numbers, conversions, validations, copies, deepcopies, pickle round trips, SetUnknownCaption, "
-        "CreateCopy(unit=); multi-entry requests are followed by permuted twins and by arithmetic on their result; "
+        "CreateCopy(unit=), the constructor run again on an existing quantity (q.__init__ / Quantity.__init__(q, ..) "
+        "with a category and unit, a category alone, a composing OrderedDict, the empty one, an unknown caption; on "
+        "simple, derived, empty and unknown-caption quantities; 60 fixed histories + random steps); multi-entry requests are followed by permuted twins and by arithmetic on their result; "
         "after every request the caller's containers are mutated; every product/quotient/sum is repeated on an "
         "emptied database; after every step the whole cache is snapshot and compared.  distinct = distinct "
         "history; non-trivial = at least two quantities were created and one later step involved an earlier one")
@@ -63,6 +65,7 @@ MAX_EXP = 8          # arithmetic on operands with larger exponents is skipped b
 MAX_CELLS = 8
 HELD = 12            # long histories: the equality rows / per-step snapshots cover the first HELD objects (+ a sample)
 IDENT_CLAUSE = "the same request repeated returns the identical object"
+REINIT_CLAUSE = "running the constructor again on an existing quantity (q.__init__(...)) changes nothing and raises nothing"
 
 
 # ------------------------------------------------------------------------------------------ generators
@@ -165,6 +168,38 @@ IDENTS = ["copy", "deepcopy", "Copy", "MakeCopy", "CreateCopyInstance", "abs", "
           "isvalid", "checkvalue", "convert", "validunits", "unitname", "repr", "scalarstr", "compare", "hash"]
 
 
+def gen_init_args(rng):
+    """arguments of a repeated __init__: a = ["s", category, unit|None] or ["d", items] (category = OrderedDict, unit = None)"""
+    r = rng.random()
+    cap = rng.choice(CAPS)
+    if r < 0.40:
+        c, u = _pair(rng)
+        if rng.random() < 0.15:
+            u = None
+        return dict(a=["s", c, u], cap=cap)
+    if r < 0.50:
+        return dict(a=["s", "Unknown", "<unknown>"], cap=rng.choice(["cap", "re-init"]))
+    if r < 0.65:
+        return dict(a=["d", []], cap=cap)
+    return dict(a=["d", _items(rng, rng.choice([1, 2, 2, 3]))], cap=cap)
+
+
+def reinit_histories():
+    """every held request form x every argument form of a repeated __init__: on the held quantity, on its square,
+    on the empty quantity its quotient resolves to; then the same requests and arithmetic again"""
+    forms = [dict(a=["s", "time", "s"], cap=None), dict(a=["s", "length", None], cap="cap"),
+             dict(a=["d", [["time", "s", -1, False], ["mass", "kg", 1, False]]], cap=None),
+             dict(a=["d", []], cap=None), dict(a=["s", "Unknown", "<unknown>"], cap="re-init"),
+             dict(a=["d", [["time", "s", 1, True]]], cap="")]
+    sq = dict(k="new", div=False, a=0, b=0, x=0, lvl="s", sy="*")
+    qu = dict(k="new", div=True, a=0, b=0, x=0, lvl="q", sy="/")
+    for h in held_requests():
+        for f in forms:
+            yield [dict(h), dict(sq), dict(qu), dict(k="reinit", q=0, **f), dict(k="reinit", q=1, **f),
+                   dict(k="reinit", q=2, **f), dict(h), dict(sq), dict(qu), dict(k="empty", how="scalar"),
+                   dict(k="same", a=0, b=0, x=0, lvl="s", sy="+")]
+
+
 def gen_op(rng, i):
     f = rng.random()
     if f < 0.36 or i == 0:
@@ -188,8 +223,10 @@ def gen_op(rng, i):
         return dict(k="new", div=(sy == "/"), a=a, b=b, x=x, lvl=lvl, sy=sy)
     if f < 0.73:
         return dict(k="pickle", q=_ref(rng, i), proto=rng.choice([0, 2, pickle.HIGHEST_PROTOCOL]))
-    if f < 0.84:
+    if f < 0.81:
         return dict(k="ident", q=_ref(rng, i), how=rng.choice(IDENTS), u=rng.choice(UNITS[rng.choice(QTS)] + ["zzz"]))
+    if f < 0.84:
+        return dict(k="reinit", q=_ref(rng, i), **gen_init_args(rng))
     if f < 0.87:
         return dict(k="setcap", q=_ref(rng, i), cap=rng.choice(["x", ""]))
     if f < 0.91:
@@ -259,6 +296,10 @@ def gen_history(rng, n):
         if (len(ops) < n and o["k"] == "obtain" and o["u"] is not None and o["u"][0] in ("l", "d")
                 and rng.random() < 0.5):
             ops.append(arith_on(rng, idx, len(ops)))
+        # the constructor run again on a fresh product / derived / empty quantity, then arithmetic that resolves to it
+        if len(ops) + 1 < n and o["k"] in ("new", "derived", "empty") and rng.random() < 0.15:
+            ops.append(dict(k="reinit", q=idx, **gen_init_args(rng)))
+            ops.append(arith_on(rng, idx, len(ops)) if rng.random() < 0.5 else dict(o))
     return ops
 
 
@@ -387,6 +428,10 @@ def to_model(o):
         return dict(k=k, q=o["q"], cap=_s(o["cap"]))
     if k == "withunit":
         return dict(k=k, q=o["q"], u=_s(o["u"]))
+    if k == "reinit":
+        a = o["a"]
+        return dict(k=k, q=o["q"], a={"s": [_s(a[1]), _s(a[2])]} if a[0] == "s" else {"d": _m_items(a[1])},
+                    cap=_s(o["cap"]))
     if k == "same":
         return dict(k=k, a=o["a"], b=o["b"], x=o["x"])
     if k == "new":
@@ -660,7 +705,7 @@ class Run:
                 return Quantity.CreateDerived(m)
             return Quantity.CreateDerived(m, o["cap"])
         q = None
-        if k in ("mkcopy", "ident", "pickle", "setcap", "withunit"):
+        if k in ("mkcopy", "ident", "pickle", "setcap", "withunit", "reinit"):
             q = self.obj(o["q"])
             if q is None:
                 return None
@@ -682,6 +727,30 @@ class Run:
                 self.bad(step, "mutators raise ReadOnlyError", quantity=repr(q), raised=repr(e))
                 raise
             self.bad(step, "mutators raise ReadOnlyError", quantity=repr(q), raised=None)
+            return q
+        if k == "reinit":
+            a = o["a"]
+            before, shown = full_snapshot(q), repr(q)
+            if a[0] == "s":
+                args = (a[1], a[2])
+            else:
+                m = _py_map(a[1])
+                self.pending.append(m)
+                args = (m, None)
+            if o["cap"] is not None:
+                args += (o["cap"],)
+            try:
+                ret = q.__init__(*args) if step % 2 else Quantity.__init__(q, *args)
+            except Exception as e:
+                self.bad(step, REINIT_CLAUSE, quantity=shown, arguments=repr(args), raised=repr(e))
+                raise
+            try:
+                after = full_snapshot(q)
+            except Exception as e:
+                after = ("the getters raise", repr(e))
+            if ret is not None or after != before:
+                self.bad(step, REINIT_CLAUSE, quantity=shown, arguments=repr(args), returned=repr(ret),
+                         before=repr(before)[:300], after=repr(after)[:300])
             return q
         if k == "withunit":
             if q.IsDerived() and any(c[2] != 0 for c in _cells(q)):
@@ -1065,11 +1134,15 @@ def _histories(ctx, salt):
     if ctx.tier == "quick":
         for _ in range(300):
             yield gen_history(rng, 30)
+        for ops in reinit_histories():
+            yield ops
         pool = exhaustive_pool()
         for a in range(len(pool)):       # depth 2 over the pool in the quick tier
             for b in range(len(pool)):
                 yield layout([pool[a], pool[b], pool[a]])
     else:
+        for ops in reinit_histories():
+            yield ops
         pool = exhaustive_pool()
         n = len(pool)
         for a in range(n):
@@ -1172,8 +1245,8 @@ def oracle(c, ctx):
     except Exception as e:
         return dict(clause="history runner raised", error=repr(e))
     if r.viol:
-        first = ([v for v in r.viol if v["clause"] == FRESH_CLAUSE] or [v for v in r.viol if v["clause"] == IDENT_CLAUSE]
-                 or r.viol)
+        first = ([v for v in r.viol if v["clause"] == REINIT_CLAUSE] or [v for v in r.viol if v["clause"] == FRESH_CLAUSE]
+                 or [v for v in r.viol if v["clause"] == IDENT_CLAUSE] or r.viol)
         v = dict(first[0])
         if c["_t"].get("long"):
             lg = c["_t"]["long"]
@@ -1191,6 +1264,8 @@ def search(ctx):
     for c in long_cases(ctx, "search"):
         yield c
         break
+    for ops in reinit_histories():
+        yield make_case(ops)
     pool = exhaustive_pool()
     n = len(pool)
     for a in range(n):
@@ -1224,7 +1299,7 @@ def shrink(case, failure, ctx):
         return shrink_long(case, failure, ctx)
     # an operation that fails (or gives another result) only because of what is cached is the more telling
     # failing input: if the found one is of another kind, try the short tuple-form histories first
-    if failure.get("clause") != FRESH_CLAUSE:
+    if failure.get("clause") not in (FRESH_CLAUSE, REINIT_CLAUSE):
         pool = exhaustive_pool()
         done = False
         for a in range(len(pool)):
